@@ -3,6 +3,7 @@ package checks
 import (
 	"encoding/json"
 	"fmt"
+	"net"
 
 	tq "github.com/facebookincubator/tacquito"
 	"github.com/facebookincubator/tacquito/cmds/server/config"
@@ -24,7 +25,7 @@ func init() {
 					"accounters with unregistered type or nil options, empty and blank command/service names, invalid regular expressions, a scope whose shared secret is empty. Prefix histories: every history of depth <= 2 over 10 state-reaching packets " +
 					"(fresh, GETUSER pending, GETPASS pending, after PAP, authorization, accounting). Last packet: each of ~40 packet kinds (every user shape x login kinds, authorization and accounting of the odd users) unmutated, and for 14 representative kinds " +
 					"every truncation, every single-octet corruption of every body offset (values 0, 0xff, orig+1), every header-octet corruption (0, 0xff, orig+1), length field lying by -1/+1/+100 and 65536/65537/2^32-1, zero-length and 65536-byte bodies; " +
-					"raw stream junk: every string of length <= 6 over {0,1,0xff}. Thorough adds proxy=true with well-formed and malformed PROXY lines. Oracle: the worker process survives; a control connection opened before the hostile one " +
+					"raw stream junk: every string of length <= 6 over {0,1,0xff}; a temporary (non-timeout) accept failure between the hostile client and the next one. Thorough adds proxy=true with well-formed and malformed PROXY lines. Oracle: the worker process survives; a control connection opened before the hostile one " +
 					"and one opened after it both complete a command authorization with PASS. states = distinct loop-model states reached; transitions = packets delivered",
 				Assumptions: []string{"a Go panic in any goroutine terminates the worker; the parent attributes it to the case written ahead"}}
 		},
@@ -41,7 +42,10 @@ type c14Case struct {
 	Junk   string `json:"junk_hex,omitempty"`
 	Scope  string `json:"scope"`
 	Proxy  bool   `json:"proxy,omitempty"`
-	PLine  string `json:"proxy_line,omitempty"`
+	// AcceptFault: the listener reports a temporary, non-timeout error (descriptor exhaustion caused by many
+	// clients) before the next client connects
+	AcceptFault bool   `json:"accept_fault,omitempty"`
+	PLine       string `json:"proxy_line,omitempty"`
 }
 
 func c14Env(kc string) *rEnv {
@@ -171,8 +175,16 @@ func c14One(c *Ctx, rw *rworld, e *rEnv, cs c14Case, ctr *uint32) {
 	if m := rw.control(e, before, 0xc0000000+*ctr); m != "" {
 		fail("before: " + m)
 	}
+	if cs.AcceptFault {
+		rw.W.L.PushErr(&net.OpError{Op: "accept", Net: "sim", Err: tempErr{}})
+		rw.W.L.PushErr(&net.OpError{Op: "accept", Net: "sim", Err: tempErr{}})
+	}
 	after, err := rw.openR(e, "s1")
 	if err != nil {
+		if cs.AcceptFault {
+			fail("after: the server stopped accepting connections after a temporary accept failure: " + err.Error())
+			c.Abort("accept-fault-stops-server", "the server stopped accepting connections after a temporary (non-timeout) accept error", cs)
+		}
 		c.Abort("hang", err.Error(), cs)
 	}
 	if cs.Proxy {
@@ -188,6 +200,13 @@ func c14One(c *Ctx, rw *rworld, e *rEnv, cs c14Case, ctr *uint32) {
 	}
 	c.R.Trace()
 }
+
+// tempErr is what accept(2) failing with EMFILE/ENFILE/ENOBUFS looks like: temporary, not a timeout.
+type tempErr struct{}
+
+func (tempErr) Error() string   { return "too many open files (simulated)" }
+func (tempErr) Timeout() bool   { return false }
+func (tempErr) Temporary() bool { return true }
 
 func c14Kinds(e *rEnv) []rPkt {
 	var a []rPkt
@@ -280,6 +299,15 @@ func c14Run(c *Ctx) {
 			if c.Expired() {
 				break
 			}
+		}
+		// (1b) the same kinds with a temporary accept failure between the hostile client and the next one
+		for ki := range kinds {
+			job++
+			if !c.Mine(job) || ki%4 != 0 {
+				continue
+			}
+			k := kinds[ki]
+			c14One(c, rw, e, c14Case{Cfg: mode, Last: &k, Scope: "s1", AcceptFault: true}, &ctr)
 		}
 		// (2) mutations of representative kinds after short prefixes
 		reps := []rPkt{{Kind: "ascii", User: "own"}, {Kind: "pap", User: "own", Pw: "pw"}, {Kind: "pap", User: "noopts", Pw: "pw"}, {Kind: "cont", Msg: "own"}, {Kind: "cont", Msg: "pw", Abort: true},
